@@ -15,30 +15,50 @@ def register(K):
     K.trusted.append(("analysis.AnalyzerMeta.default_instance", "metaclass property abstracted as a class-object field holding one Analyzer"))
 
     # every analysis: a generator of findings; a finding is an AnalysisResult whose severity is never LIKELY_SAFE
+    ERR = ["ValueError", "IndexError", "KeyError", "NotImplementedError", "TypeError", "AttributeError"]
+    PK = ["@list.items:nodeowned", "@ast.lineno", "@ast.col_offset", "@iterator.pos"]
+    # every analysis: a generator of findings; a finding is an AnalysisResult whose severity is never LIKELY_SAFE.  It may read the derived
+    # views of the pickle (building the caches), writes the de-dup set of the context, and nothing else; it raises only if decompilation does
     K.contract("analysis.Analysis.analyze", params="self: analysis.Analysis, context: analysis.AnalysisContext", returns="gen", yields=RES,
-               modifies=["context.reported_shortened_code[]"], may_raise=["Exception"],
-               ensures=["forall('j', len(result), 'doc_rank(result[j].severity) >= 1')"],
+               requires=["inv(context.pickled)"],
+               modifies=["context.reported_shortened_code[]", "context.pickled._ast", "context.pickled._properties"] + PK,
+               may_raise=ERR + ["Exception"], exact_raises=False, may_raise_if="context.pickled._ast is None",
+               ensures=["forall('j', len(result), 'doc_rank(result[j].severity) >= 1')", "inv(context.pickled)",
+                        "context.pickled._opcodes == old(context.pickled._opcodes)",
+                        "implies(old(context.pickled._ast) is not None, context.pickled._ast is old(context.pickled._ast))"],
+               ensures_raise={"*": ["inv(context.pickled)", "context.pickled._opcodes == old(context.pickled._opcodes)"]},
                notes="base contract inherited by the nine analyses (behavioural subtyping)")
 
     K.contract("analysis.AnalysisContext.__init__", params="self: analysis.AnalysisContext, pickled: fickle.Pickled",
                modifies=["self.pickled", "self.reported_shortened_code", "self.previous_results", "self.results_by_analysis"],
                ensures=["self.pickled is pickled", "len(self.previous_results) == 0", "len(self.reported_shortened_code) == 0",
-                        "fresh_since_entry(self.previous_results)", "fresh_since_entry(self.reported_shortened_code)"])
+                        "fresh_since_entry(self.previous_results)", "fresh_since_entry(self.reported_shortened_code)",
+                        "private(self.previous_results)", "self.previous_results is not self.pickled._opcodes"])
     K.contract("analysis.AnalysisContext.analyze", params="self: analysis.AnalysisContext, analysis: analysis.Analysis",
-               returns=f"list[{RES}]", may_raise=["Exception"],
-               modifies=["self.previous_results[]", "self.reported_shortened_code[]", "self.results_by_analysis[]"],
+               returns=f"list[{RES}]", may_raise=ERR + ["Exception"], exact_raises=False, may_raise_if="self.pickled._ast is None",
+               requires=["inv(self.pickled)", "private(self.previous_results)", "self.previous_results is not self.pickled._opcodes"],
+               modifies=["self.previous_results[]", "self.reported_shortened_code[]", "self.results_by_analysis[]", "self.pickled._ast",
+                         "self.pickled._properties"] + PK,
                ensures=["self.previous_results == old(self.previous_results) + result",
-                        "forall('j', len(result), 'doc_rank(result[j].severity) >= 1')"])
+                        "forall('j', len(result), 'doc_rank(result[j].severity) >= 1')", "inv(self.pickled)", "private(self.previous_results)", "self.previous_results is not self.pickled._opcodes",
+                        "self.pickled is old(self.pickled)", "self.pickled._opcodes == old(self.pickled._opcodes)",
+                        "implies(old(self.pickled._ast) is not None, self.pickled._ast is old(self.pickled._ast))"],
+               ensures_raise={"*": ["inv(self.pickled)", "self.pickled._opcodes == old(self.pickled._opcodes)",
+                                    "self.previous_results == old(self.previous_results)"]})
     K.contract("analysis.AnalysisContext.results", params="self: analysis.AnalysisContext", returns="analysis.AnalysisResults",
                ensures=["result.pickled is self.pickled", "result.results == self.previous_results"])
 
     K.contract("analysis.Analyzer.analyze", params="self: analysis.Analyzer, pickled: fickle.Pickled", returns="analysis.AnalysisResults",
-               may_raise=["Exception"],
-               ensures=["result.pickled is pickled",
+               may_raise=ERR + ["Exception"], exact_raises=False, requires=["inv(pickled)"],
+               modifies=["pickled._ast", "pickled._properties"] + PK,
+               ensures=["result.pickled is pickled", "inv(pickled)", "pickled._opcodes == old(pickled._opcodes)",
                         "forall('j', len(result.results), 'doc_rank(result.results[j].severity) >= 1')"],
-               loops={0: dict(invariant=["context.pickled is pickled",
+               ensures_raise={"*": ["inv(pickled)", "pickled._opcodes == old(pickled._opcodes)"]},
+               loops={0: dict(invariant=["context.pickled is pickled", "inv(pickled)", "pickled._opcodes == old(pickled._opcodes)",
+                                         "private(context.previous_results)", "context.previous_results is not pickled._opcodes",
                                          "forall('j', len(context.previous_results), 'doc_rank(context.previous_results[j].severity) >= 1')"],
-                              modifies=["context.previous_results[]", "context.reported_shortened_code[]", "context.results_by_analysis[]"])})
+                              modifies=["context.previous_results[]", "context.reported_shortened_code[]", "context.results_by_analysis[]",
+                                        "pickled._ast", "pickled._properties"] + PK)})
 
     K.contract("analysis.AnalysisResults.to_string", params="self: analysis.AnalysisResults, verbosity: analysis.Severity = Severity.POSSIBLY_UNSAFE",
                returns="str", pure=True, ensures=[])
@@ -51,7 +71,9 @@ def register(K):
     K.contract("analysis.check_safety",
                params="pickled: fickle.Pickled, analyzer: analysis.Analyzer? = None, verbosity: analysis.Severity = Severity.POSSIBLY_UNSAFE, "
                       "json_output_path: val = None",
-               returns="analysis.AnalysisResults", may_raise=["OSError", "Exception"],
-               ensures=["result.pickled is pickled",
+               returns="analysis.AnalysisResults", may_raise=ERR + ["OSError", "Exception"], exact_raises=False, requires=["inv(pickled)"],
+               modifies=["pickled._ast", "pickled._properties"] + PK,
+               ensures_raise={"*": ["inv(pickled)", "pickled._opcodes == old(pickled._opcodes)"]},
+               ensures=["result.pickled is pickled", "inv(pickled)", "pickled._opcodes == old(pickled._opcodes)",
                         "forall('j', len(result.results), 'doc_rank(result.results[j].severity) >= 1')"])
-    K.contract("analysis.is_likely_safe", params="filepath: val", returns="bool", may_raise=["OSError", "Exception"], ensures=[])
+    K.contract("analysis.is_likely_safe", params="filepath: val", returns="bool", may_raise=["OSError", "Exception"], modifies=PK, ensures=[])
